@@ -456,8 +456,10 @@ pub fn replay(_ctx: &Ctx, case: &Value) -> Outcome {
         }
         same = same && sgot.is_empty() && Some(*sdur) == case["sdur"].as_f64();
     }
-    if !same {
-        let fails = property_failures(&summ, &obs);
+    // the property is evaluated on every real result (with the model's summaries: Quil-T frame sets, documented
+    // durations); a difference from the model's schedule that satisfies it is only a divergence
+    let fails = if summ.iter().all(|x| x.dur.is_some()) { property_failures(&summ, &obs) } else { vec![] };
+    if !same || !fails.is_empty() {
         let got = json!({"expanded_block": sched_json(&obs.flat_sched), "source_block": sched_json(&obs.src_sched)});
         let want = json!({"items": case["items"], "total": case["total"], "spans": case["spans"], "sdur": case["sdur"]});
         if fails.is_empty() {
